@@ -57,22 +57,35 @@ H = U.H
 def gen(t, tier):
     b = copy.deepcopy(t.weighted(BACKENDS))
     has_ts = b['type'] in ('file', 'sqlite')
-    sc = {'backend': b, 'meta_size': t.pick([[1, 1], [1, 1], [2, 2]]), 'tiles': [], 'salt': t.pick([None, 'a', 'b', 'c'])}
+    sc = {'backend': b, 'meta_size': t.pick([[1, 1], [1, 1], [2, 2], [3, 2]]), 'tiles': [], 'salt': t.pick([None, 'a', 'b', 'c'])}
+    gk = t.weighted([('global2', 4), ('sqrt2', 2), ('custom', 2)])
+    if b['type'] == 'geopackage' or b.get('directory_layout') == 'quadkey':
+        gk = 'global2'      # quadkey file names only address tiles with x, y < 2**z
+    sc['gk'] = gk
+    if gk == 'global2':
+        sc['grid'] = {'srs': 'EPSG:3857', 'tile_size': [U.TS, U.TS], 'num_levels': 4, 'origin': 'll'}
+    elif gk == 'sqrt2':
+        sc['grid'] = {'srs': 'EPSG:3857', 'tile_size': [U.TS, U.TS], 'res_factor': 'sqrt2', 'num_levels': 6, 'origin': t.pick(['ll', 'ul'])}
+    else:
+        sc['grid'] = {'srs': 'EPSG:3857', 'tile_size': [U.TS, U.TS], 'bbox': [1000000, 6000000, 1100000, 6070000],
+                      'res': t.pick([[4000, 1500, 700, 300], [5000, 2000, 900], [3000, 1300, 500, 200]]), 'origin': t.pick(['ll', 'ul'])}
     n = t.randint(6, 20 if tier == 'quick' else 30)
     seen = []
     for _ in range(n):
-        z = t.pick([0, 1, 2, 2, 3, 3])
-        c = [t.choice(1 << z), t.choice(1 << z), z]
+        z = t.pick([0, 1, 2, 2, 3, 3, 4, 5])
+        # fractional position inside the level, mapped to a tile index at run time (the grid size is the loader's business)
+        c = [t.choice(1000), t.choice(1000), z]
         if c in seen:
             continue
         seen.append(c)
         sc['tiles'].append([c, t.pick([0.0, 0.2, 0.7, 1.0, 1.0, 5, 3600, 86400])])
+    nlev = {'global2': 4, 'sqrt2': 6}.get(gk) or len(sc['grid']['res'])
     levels = t.weighted([('all', 1), ('list', 3), ('range', 2)])
     if levels == 'list':
-        sc['levels'] = sorted(set(t.choice(4) for _ in range(t.randint(1, 3))))
+        sc['levels'] = sorted(set(t.choice(nlev) for _ in range(t.randint(1, 3))))
     elif levels == 'range':
-        a = t.choice(4)
-        sc['levels'] = {'from': a, 'to': t.randint(a, 3)}
+        a = t.choice(nlev)
+        sc['levels'] = {'from': a, 'to': t.randint(a, nlev - 1)}
     else:
         sc['levels'] = None
     if has_ts:
@@ -83,11 +96,11 @@ def gen(t, tier):
     sc['k'] = t.choice(max(1, len(sc['tiles'])))     # the threshold is placed around the store time of tile k
     sc['delta'] = t.pick([-1, 0, 0, 1, 2, 100])
     sc['after'] = t.pick([0.0, 0.5, 3.0, 7200.0])     # time between the last store and the cleanup
-    if t.chance(0.5):
-        # bbox coverage in grid SRS, not aligned to tiles
-        x0 = -H + t.choice(8) * H / 4 + t.pick([0, 1000.0, -1000.0, 3 * H / 16, H / 8])
-        y0 = -H + t.choice(8) * H / 4 + t.pick([0, 1000.0, -1000.0, 3 * H / 16, H / 8])
-        sc['coverage'] = [x0, y0, x0 + t.randint(1, 6) * H / 4 + t.pick([0, H / 8]), y0 + t.randint(1, 6) * H / 4]
+    if t.chance(0.55):
+        # bbox coverage as fractions of the grid extent (aligned, slightly off, and clearly unaligned corners)
+        fx, fy = t.choice(8) / 8.0 + t.pick([0, 0.00005, -0.00005, 3 / 64.0, 1 / 32.0]), \
+            t.choice(8) / 8.0 + t.pick([0, 0.00005, -0.00005, 3 / 64.0, 1 / 32.0])
+        sc['coverage'] = [fx, fy, fx + t.randint(1, 6) / 8.0 + t.pick([0, 1 / 32.0]), fy + t.randint(1, 6) / 8.0]
     else:
         sc['coverage'] = None
     return sc
@@ -120,14 +133,20 @@ def _iso(ts):
     return _time.strftime('%Y-%m-%dT%H:%M:%S', _time.gmtime(ts))
 
 
-def _tile_bbox(c, meta):
+def _tile_bbox(c, meta, grid):
+    """bbox of the meta tile that contains tile c (independent arithmetic over the grid definition)"""
     x, y, z = c
     mx, my = meta
-    n = 1 << z
-    size = 2 * H / n
+    nx, ny = grid.grid_sizes[z]
+    res = grid.resolutions[z]
+    tw, th = grid.tile_size[0] * res, grid.tile_size[1] * res
+    gx0, gy0, gx1, gy1 = grid.bbox
+    mx, my = min(mx, nx), min(my, ny)
     x0, y0 = (x // mx) * mx, (y // my) * my
-    x1, y1 = min(x0 + mx, n), min(y0 + my, n)
-    return (-H + x0 * size, -H + y0 * size, -H + x1 * size, -H + y1 * size)
+    x1, y1 = min(x0 + mx, nx), min(y0 + my, ny)
+    if grid.origin in ('ul', 'nw'):
+        return (gx0 + x0 * tw, gy1 - y1 * th, gx0 + x1 * tw, gy1 - y0 * th)
+    return (gx0 + x0 * tw, gy0 + y0 * th, gx0 + x1 * tw, gy0 + y1 * th)
 
 
 def _overlap_area(a, b):
@@ -147,7 +166,7 @@ def run(sc, tape):
     b = sc['backend']
     name = b['type'] + ('-' + b['directory_layout'] if 'directory_layout' in b else '') + \
         ('-v%d' % b['version'] if 'version' in b else '') + ('-levels' if b.get('levels') else '') + \
-        ('-meta' if sc['meta_size'] != [1, 1] else '')
+        ('-meta' if sc['meta_size'] != [1, 1] else '') + ('-' + sc['gk'] if sc['gk'] != 'global2' else '')
     w = World(tape, policy=('sticky', 0.3), step_cap=600000)
     sched = w.sched
     clock = w.clock
@@ -183,7 +202,7 @@ def run(sc, tape):
             cache_conf['filename'] = realdir + '/c.gpkg'
         cache_conf['table_name'] = 'tiles'
     conf = F.base_conf(cache_conf, meta_size=sc['meta_size'])
-    conf['grids']['g']['num_levels'] = 4
+    conf['grids']['g'] = dict(sc['grid'])
     # a second cache next to the first one: a foreign object for the cleanup of c1
     conf['caches']['c2'] = {'grids': ['g'], 'sources': ['src'], 'format': 'image/png',
                             'cache': {'type': 'file', 'directory_layout': 'tc'}}
@@ -199,8 +218,24 @@ def run(sc, tape):
         tm = [tmx for _, _, tmx in pc.caches['c1'].caches()][0]
         tm2 = [tmx for _, _, tmx in pc.caches['c2'].caches()][0]
         cache = tm.cache
+        grid = tm.grid
+        nlev = grid.levels
         times_of = {}
-        for i, (coord, dt) in enumerate(sc['tiles']):
+        gbb = grid.bbox
+        cov = None
+        if sc['coverage']:
+            fx0, fy0, fx1, fy1 = sc['coverage']
+            cov = [gbb[0] + fx0 * (gbb[2] - gbb[0]), gbb[1] + fy0 * (gbb[3] - gbb[1]),
+                   gbb[0] + fx1 * (gbb[2] - gbb[0]), gbb[1] + fy1 * (gbb[3] - gbb[1])]
+        result['cov'] = cov
+        tiles = []
+        for (fx, fy, z), dt in sc['tiles']:
+            z = min(z, nlev - 1)
+            nx, ny = grid.grid_sizes[z]
+            c = (fx * nx // 1000, fy * ny // 1000, z)
+            if c not in [t_[0] for t_ in tiles]:
+                tiles.append((c, dt))
+        for i, (coord, dt) in enumerate(tiles):
             clock.now += dt
             t = C.make_tile(coord, C.payload({'tok': 5000 + i, 'size': 0}))
             cache.store_tile(t)
@@ -227,8 +262,8 @@ def run(sc, tape):
             else:
                 recorded[coord] = times_of[coord]
         # threshold
-        k = min(sc['k'], len(sc['tiles']) - 1)
-        tk = recorded[tuple(sc['tiles'][k][0])]
+        k = min(sc['k'], len(tiles) - 1)
+        tk = recorded[tuple(tiles[k][0])]
         clock.now += sc['after']
         mode = sc['mode']
         cconf = {'caches': ['c1'], 'grids': ['g']}
@@ -252,8 +287,8 @@ def run(sc, tape):
             cconf['remove_before'] = {'mtime': '/simfs/trigger/t.txt'}
             T = tk + sc['delta']
         seed_conf = {'cleanups': {'cl': cconf}}
-        if sc['coverage']:
-            seed_conf['coverages'] = {'cov': {'bbox': sc['coverage'], 'srs': 'EPSG:3857'}}
+        if cov:
+            seed_conf['coverages'] = {'cov': {'bbox': cov, 'srs': 'EPSG:3857'}}
             cconf['coverages'] = ['cov']
         t_conf0 = clock.now
         sconf = SeedingConfiguration(seed_conf, mapproxy_conf=pc)
@@ -284,7 +319,7 @@ def run(sc, tape):
             cache.cleanup()
         # selected levels
         if sc['levels'] is None:
-            sel = set(range(4))
+            sel = set(range(nlev))
         elif isinstance(sc['levels'], list):
             sel = set(sc['levels'])
         else:
@@ -306,22 +341,22 @@ def run(sc, tape):
                     age = 'new'
                 else:
                     age = '?'
-                if sc['coverage']:
-                    ow, oh = _overlap_area(_tile_bbox(coord, sc['meta_size']), sc['coverage'])
+                if cov:
+                    ow, oh = _overlap_area(_tile_bbox(coord, sc['meta_size'], grid), cov)
                     # mapproxy's grid arithmetic works with a sub-pixel tolerance: overlaps (or gaps) thinner than one
                     # pixel of that level are neither demanded nor forbidden
-                    eps = 2 * H / (U.TS * (1 << coord[2]))
+                    eps = grid.resolutions[coord[2]]
                     if ow > eps and oh > eps:
-                        cov = 'in'
+                        covc = 'in'
                     elif ow < -eps or oh < -eps:
-                        cov = 'out'
+                        covc = 'out'
                     else:
-                        cov = '?'
+                        covc = '?'
                 else:
-                    cov = 'in'
-                if age == 'new' or cov == 'out':
+                    covc = 'in'
+                if age == 'new' or covc == 'out':
                     want = 'keep'
-                elif age == 'old' and cov == 'in':
+                elif age == 'old' and covc == 'in':
                     want = 'remove'
                 else:
                     want = '?'
@@ -366,7 +401,7 @@ def run(sc, tape):
                     raise t.exc
             if 'bad' in result:
                 v = {'sig': 'C12:%s:%s' % (result['bad'][0], name), 'msg': '%s [mode %s, levels %s, coverage %s]' % (
-                    result['bad'][1], sc['mode'], sc['levels'], sc['coverage'])}
+                    result['bad'][1], sc['mode'], sc['levels'], result.get('cov'))}
             elif outcome != 'done':
                 v = {'sig': 'C12:hang:%s' % name, 'msg': 'cleanup did not terminate: %s %r' % (outcome, sched.stuck_info)}
     finally:
@@ -375,7 +410,7 @@ def run(sc, tape):
     probes['tiles_required_removed'] = result.get('removed', 0)
     probes['tiles_required_kept'] = result.get('kept', 0)
     probes['mode_' + sc['mode']] = 1
-    return {'violation': v, 'digest': C.digest_of(sc),
+    return {'violation': v, 'digest': C.digest_of(sc, sched.log if onsim else len(sched.log), w.fs.op_count, result.get('removed'), result.get('kept')),
             'nontrivial': result.get('removed', 0) > 0 and result.get('kept', 0) > 0, 'steps': sched.steps,
             'sim_time': clock.now - 1.7e9, 'faults': {}, 'probes': probes, 'unspecified': unspecified[0],
             'sample': {'backend': name, 'mode': sc['mode'], 'levels': sc['levels'], 'coverage': sc['coverage'],
